@@ -59,8 +59,11 @@ Theorem C02_fast_path_dead_bit : forall st b st', 0 <= r_n st <= 7 ->
 Proof. exact fast_path_dead_read_bit. Qed.
 Print Assumptions C02_fast_path_dead_bit.
 
-(* HuffmanTable.Build (whose lookup-table fill indexes out of range on some invalid tables)
-   does not panic on a valid table *)
+(* HuffmanTable.Build validates the table first: it never panics, whatever BITS/HUFFVAL are,
+   and returns the table when it is valid *)
+Theorem C02_build_never_panics : forall bits vals, build_table bits vals <> Panic.
+Proof. exact build_table_never_panics. Qed.
+Print Assumptions C02_build_never_panics.
 Theorem C02_build_no_panic : forall bits vals, table_facts bits vals ->
   build_table bits vals = Ok (ht_of bits vals).
 Proof. exact build_table_no_panic. Qed.
